@@ -334,6 +334,55 @@ static void byte_space (long start, long *pidx)
   }
 }
 
+/* space 4: every token of length <= maxlen over a numeric-spelling alphabet, in every place where the parser converts a
+ * token to a number (constant values of each size, literal operands, sizes, alignments, .n/.m values) */
+static const char TOK[] = { '-', '+', '0', '1', '9', 'x', '.', 'e', 'l', 'L', 'a' };
+#define NT 11
+static const char *TEMPL[] = {
+  ".function t\n.source 2 s1\n.dest 2 d1\n.const 2 c1 %s\naddw d1, s1, c1\n",
+  ".function t\n.source 8 s1\n.dest 8 d1\n.const 8 c1 %s\naddq d1, s1, c1\n",
+  ".function t\n.source 4 s1\n.dest 4 d1\n.const 4 c1 %s\naddf d1, s1, c1\n",
+  ".function t\n.source 2 s1\n.dest 2 d1\naddw d1, s1, %s\n",
+  ".function t\n.source 4 s1\n.dest 4 d1\naddf d1, s1, %s\n",
+  ".function t\n.source 8 s1\n.dest 8 d1\naddd d1, s1, %s\n",
+  ".function t\n.source 8 s1\n.dest 8 d1\ncopyq d1, %s\n",
+  ".function t\n.source %s s1\n.dest 2 d1\ncopyw d1, s1\n",
+  ".function t\n.source 2 s1\n.dest 2 d1 align %s\ncopyw d1, s1\n",
+  ".function t\n.n %s\n.source 2 s1\n.dest 2 d1\ncopyw d1, s1\n",
+  ".function t\n.n mult %s\n.source 2 s1\n.dest 2 d1\ncopyw d1, s1\n",
+  ".function t\n.n min %s\n.n max %s\n.source 2 s1\n.dest 2 d1\ncopyw d1, s1\n",
+  ".function t\n.flags 2d\n.m %s\n.source 2 s1\n.dest 2 d1\ncopyw d1, s1\n",
+  ".function t\n.temp %s t1\n.source 2 s1\n.dest 2 d1\ncopyw d1, s1\n",
+  ".function t\n.param %s p1\n.source 2 s1\n.dest 2 d1\ncopyw d1, s1\n",
+};
+#define NTEMPL ((int)(sizeof(TEMPL)/sizeof(TEMPL[0])))
+
+static void token_space (long start, long *pidx)
+{
+  int len, tp;
+  for (len = 0; len <= cfg.maxlen; len++) {
+    long total = 1, k;
+    int i;
+    for (i = 0; i < len; i++) total *= NT;
+    for (k = 0; k < total; k++) for (tp = 0; tp < NTEMPL; tp++) {
+      long idx = (*pidx)++, t = k;
+      char tok[16], text[400], sig[64];
+      if (idx < start || (idx % cfg.nshards) != cfg.shard) continue;
+      if (v_expired ()) return;
+      for (i = len - 1; i >= 0; i--) { tok[i] = TOK[t % NT]; t /= NT; }
+      tok[len] = 0;
+      snprintf (text, sizeof (text), TEMPL[tp], tok, tok);
+      snprintf (sig, sizeof (sig), "token/%d/%s", tp, tok);
+      { char k_[260]; snprintf (k_, sizeof k_, "C14|crash|%s", sig); v_case (idx, k_, text); }
+      one_case (text, sig, 0, 1);
+      if (nsamples < 5 && len == cfg.maxlen && (idx % 30011) == 17) {
+        nsamples++;
+        v_out ("{\"t\":\"sample\",\"space\":\"tokens\",\"text\":\"%s\"}", v_esc (text));
+      }
+    }
+  }
+}
+
 static void worker (long start, void *user)
 {
   long idx = 0;
@@ -341,6 +390,7 @@ static void worker (long start, void *user)
   orc_init ();
   if (cfg.mode == 1) line_space (start, &idx);
   else if (cfg.mode == 2) limit_space (start, &idx);
+  else if (cfg.mode == 4) token_space (start, &idx);
   else byte_space (start, &idx);
   v_out ("{\"t\":\"stat\",\"cases\":%ld,\"programs_returned\":%ld,\"error_records\":%ld,\"compiled\":%ld,\"malformed_line_expectations\":%ld,\"violations_raw\":%ld}",
       st_cases, st_programs, st_errors, st_compiled, st_mal_checked, st_viol);
